@@ -81,10 +81,32 @@ def driver(name, src, kind="cxx", flags="", libs=""):
 
 
 def _register():
-    # Each property module may declare its drivers in vf/props/cNN.py through build.driver(...);
-    # shared ones are declared here.
-    driver("lmm_driver", "lmm_driver.cpp")
-    driver("s4u_interp", "s4u_interp.cpp")
+    """A file /verif/drivers/<name>.{cpp,c} is a driver when one of its first 40 lines reads
+         // vf-driver: kind=cxx|c|smpicxx|smpicc|fuzz [flags=<...>] [libs=<...>] [extra=<other sources, comma separated>]
+       (flags/libs run to the next ' libs=' / ' extra=' marker or the end of the line)."""
+    import glob
+    import re
+    for path in sorted(glob.glob(os.path.join(VERIF, "drivers", "*.c*"))):
+        name = os.path.splitext(os.path.basename(path))[0]
+        with open(path, errors="replace") as f:
+            head = [next(f, "") for _ in range(40)]
+        for l in head:
+            m = re.match(r"\s*(//|\*|/\*)\s*vf-driver:\s*(.*)$", l)
+            if not m:
+                continue
+            spec = m.group(2).strip()
+            if spec.endswith("*/"):
+                spec = spec[:-2].strip()
+            parts = re.split(r"\s(?=(?:kind|flags|libs|extra)=)", " " + spec)
+            kv = {}
+            for part in parts:
+                part = part.strip()
+                if "=" in part:
+                    k, v = part.split("=", 1)
+                    kv[k] = v.strip()
+            srcs = [os.path.basename(path)] + [x.strip() for x in kv.get("extra", "").split(",") if x.strip()]
+            driver(name, srcs, kind=kv.get("kind", "cxx"), flags=kv.get("flags", ""), libs=kv.get("libs", ""))
+            break
 
 
 _register()
